@@ -314,3 +314,23 @@ reg("C16", "c16", [("ops", "plain", 5), ("histories", "plain", 2), ("ops_asan", 
                "interpreter are attributed to the journaled case.",
     level_note="Trusts cvxopt dense matrices (C15) as reference and the ASan runtime.",
     design_ref="4/C16")
+
+reg("C17", "c17", [("calls", "plain", 1)], "exploration",
+    rule="Hypothesis draws one call of one of the 34 cvxopt.blas routines: typecode d/z, every flag, logical dimensions 0..4 "
+         "(band widths 0..3), increments in {1,2,3,-1,-2}, leading dimensions minimum..minimum+2, offsets 0..3, buffers "
+         "with 0..3 elements of padding in matrix or vector shape, explicit, omitted, negative (dimensions) and zero (ld) "
+         "forms of the optional arguments, alpha/beta real, integer and complex; one call in four carries one negative "
+         "mutation (buffer one element short, ld below the minimum, negative offset, zero/negative increment, typecode "
+         "conflict, illegal flag, complex scalar for real data, dimension too large). Non-trivial = accepted call with an "
+         "operand of order >= 2 and a flag or a non-default increment/ld/offset or an omitted argument; or a call that "
+         "must be refused.",
+    assumptions=["vlib/spec_blas.py transcribes the docstrings of src/C/blas.c (defaults, ld/inc/offset rules, extents)",
+                 "results compared to 1e-9 relative (data are multiples of 1/8 of magnitude <= 2, orders <= 4)",
+                 "a call that violates a documented rule but addresses no data may be refused or carried out"],
+    technique="property-based testing against a reference model (Hypothesis): numpy semantics on explicit index sets, "
+              "junk outside the structural footprint, untouched-outside and accept/refuse classification",
+    level_text="~4e5 (quick) / 1.2e7 (thorough) generated BLAS calls; every written element compared with a numpy reference "
+               "computed from the structural footprint only, every other element of every argument required bit-identical, "
+               "refusals required exactly for the calls the documented rules forbid.",
+    level_note="Trusts vlib/spec_blas.py and numpy.",
+    design_ref="4/C17")
